@@ -565,10 +565,10 @@ func (s *Server) FastInvoke(w http.ResponseWriter, i *interop.Invoke, direct boo
 
 			if cachedInitError := s.getCachedInitErrorResponse(); cachedInitError != nil {
 				// /init/error was called
-				s.trySendDefaultErrorResponse(cachedInitError)
+				s.trySendDefaultErrorResponse(i.ID, cachedInitError)
 			} else {
 				// sent only if /error and /response not called
-				s.trySendDefaultErrorResponse(invokeFailure.DefaultErrorResponse)
+				s.trySendDefaultErrorResponse(i.ID, invokeFailure.DefaultErrorResponse)
 			}
 			doneFail := doneFailFromInvokeFailure(invokeFailure)
 			s.InvokeDoneChan <- DoneWithState{
@@ -604,9 +604,12 @@ func (s *Server) getCachedInitErrorResponse() *interop.ErrorInvokeResponse {
 	return s.cachedInitErrorResponse
 }
 
-func (s *Server) trySendDefaultErrorResponse(resp *interop.ErrorInvokeResponse) {
-	if err := s.SendErrorResponse(s.GetCurrentInvokeID(), resp); err != nil {
-		if err != interop.ErrResponseSent {
+func (s *Server) trySendDefaultErrorResponse(invokeID string, resp *interop.ErrorInvokeResponse) {
+	// The response is addressed to the invocation that failed, not to whichever one is
+	// current by now. ErrInvalidInvokeID means that invocation was reset or released in
+	// the meantime (e.g. by the invoke timeout): there is nobody left to answer.
+	if err := s.SendErrorResponse(invokeID, resp); err != nil {
+		if err != interop.ErrResponseSent && err != interop.ErrInvalidInvokeID {
 			log.Panicf("Failed to send default error response: %s", err)
 		}
 	}
